@@ -15,6 +15,10 @@ for f in sorted(glob.glob(os.path.join(os.path.dirname(__file__), "..", "seeded"
         missed = sorted({c for run in early for c, r in run.items() if r["exit"] != 1 and res.get(c, {}).get("exit") == 1})
         if missed:
             e = " (missed by " + ", ".join(missed) + " before strengthening)"
+    if m.get("thorough_tier"):
+        e += " (thorough tier: " + "; ".join(f"{k} {v.split(':')[0]}" for k, v in m["thorough_tier"].items()) + ")"
+    if m.get("judgement"):
+        e += " (" + m["judgement"].split(":")[0] + ")"
     rows.append(f"| {m['seed_id']} | {m.get('needs_to_manifest','')[:150]} | {'yes' if m.get('confirmed') else 'NO'} | {caught}{e} |")
 print("| seed | needs to manifest | confirmed | quick checks run against it |")
 print("|---|---|---|---|")
